@@ -202,7 +202,7 @@ var c16FuzzSeeds = [][]byte{
 	// absolute names, plain and in GNU / PAX long-name members
 	c16Seed("mychart", nil, []c16SeedEntry{{prefix: "$OUT/", comps: []string{"canary"}, typ: "0"}}),
 	c16Seed("mychart", nil, []c16SeedEntry{{prefix: "$OUT/", comps: []string{strings.Repeat("n", 120), "canary"}, typ: "0", enc: "gnu"}}),
-	c16Seed("mychart", nil, []c16SeedEntry{{prefix: "/c16-abs-escape/", comps: []string{"x"}, typ: "0", enc: "pax"}}),
+	c16Seed("mychart", nil, []c16SeedEntry{{prefix: "/tmp/c16-abs-escape/", comps: []string{"x"}, typ: "0", enc: "pax"}}),
 	// drive prefixes
 	c16Seed("mychart", nil, []c16SeedEntry{{prefix: "c:\\", comps: []string{"..", "..", "outside", "canary"}, bslash: 0x0e, typ: "0"}}),
 	c16Seed("mychart", nil, []c16SeedEntry{{prefix: "mychart/", comps: []string{"C:", "..", "canary"}, typ: "0"}}),
